@@ -456,7 +456,7 @@ pub fn case_tracked(bytes: &[u8], _s: &[u8], ctx: &mut Ctx) -> Result<(), Fail> 
     run_case(&case, ctx, true)
 }
 
-fn case_threads(bytes: &[u8], _s: &[u8], ctx: &mut Ctx) -> Result<(), Fail> {
+pub fn case_threads(bytes: &[u8], _s: &[u8], ctx: &mut Ctx) -> Result<(), Fail> {
     let mut src = Source::new(bytes);
     let case = decode(&mut src, true);
     ctx.case(&case);
